@@ -205,6 +205,7 @@ class Runner:
     def __init__(self, ctx, model):
         self.ctx, self.model = ctx, model
         self.listed = set(k["key"] for k in ctx.known.for_property("C01"))
+        self.foreign_listed = set("%s/%s" % (f["property"], f["key"]) for f in ctx.known.findings)
         self.seen = set()
         self.corr_ev, self.corr_vs, self.oracle = [], [], []
         self.known_hits = collections.Counter()
@@ -237,7 +238,7 @@ class Runner:
         ks = [FLAG_CLASS[f] for f in FLAG_CLASS if c["flags"].get(f)]
         if passes_global_name(c["sheet_ast"]):
             ks.append("K-C01-1")
-        return [k for k in ks if k in self.listed or k in FOREIGN]
+        return [k for k in ks if k in self.listed or (k in FOREIGN and k in self.foreign_listed)]
 
     def evaluate(self, cases):
         ctx = self.ctx
